@@ -87,6 +87,7 @@ def make_case(rnd, i):
     mf = [0.0, 1.0, 0.5][(i // 4) % 3]
     g = Gen(rnd, naming=naming, method_form=mf, hostile_sel=0.15 if i % 5 == 0 else 0.0)
     g.odd_stage_functions = i % 3 == 0
+    g.runtime_keys = 0.1 if i % 4 == 1 else 0.0
     q, stages = g.chain(rnd.randint(1, 6), rnd.randint(1, 4))
     if i % 3 == 1:
         q = g.sprinkle_positional_only(q)
